@@ -63,6 +63,7 @@ func seqAlphabet(era drive.Era) []seqEvent {
 		{name: "G2", rates: R2()},
 		{name: "T", rates: R1(), submit: one("A>B", KA, kit.Transfer(A, "pUSD", x, B))},
 		{name: "Tr", rates: R1(), submit: one("A>B,C,B,A", KA, kit.Tx{From: A, Asset: "pUSD", Amount: U / 10 * 4, To: []kit.Out{{Addr: B, Amount: U / 10 * 2}, {Addr: C, Amount: U / 20}, {Addr: B, Amount: U / 10}, {Addr: A, Amount: U / 20}}})},
+		{name: "Tz", rates: R2(), submit: one("A>0B,C,0A,B", KA, kit.Tx{From: A, Asset: "pUSD", Amount: U / 10, To: []kit.Out{{Addr: B, Amount: 0}, {Addr: C, Amount: U / 20}, {Addr: A, Amount: 0}, {Addr: B, Amount: U / 20}}})},
 		{name: "Tb", rates: R2(), submit: one("B>A", KB, kit.Transfer(B, "pUSD", x, A))},
 		{name: "C", rates: R1(), submit: one("A:usd>eur", KA, kit.Conversion(A, "pUSD", x, "pEUR"))},
 		{name: "Cu", submit: one("A:usd>eur", KA, kit.Conversion(A, "pUSD", x, "pEUR"))},
@@ -482,7 +483,7 @@ func seqPlanFor(thorough bool, prop string) []seqEra {
 
 var seqProps = []string{"C03", "C04", "C06", "C07", "C11", "C13", "C17"}
 
-const seqRule = " PLUS the sequence family: every sequence of block events (alphabet of 21: ungraded / graded at two rate vectors, transfers A>B and B>A, a transfer naming one recipient twice and the sender itself, conversions submitted in graded and ungraded blocks, a two-entry block, byte-identical copies of the previous entry, a PEG request, a chained batch in both orders, conversions into pFCT and into a small asset, a conversion whose output the same batch spends, a block with too few price records, an FCT burn with a pFCT conversion, a transfer whose outputs equal its input only modulo 2^64) up to the stated depth from a funded state in several eras; after EVERY block the balances of the three actors and the miner and the status of every submitted entry are compared with a reference ledger kept in maps; this property reports the discrepancies of its class"
+const seqRule = " PLUS the sequence family: every sequence of block events (alphabet of 22: ungraded / graded at two rate vectors, transfers A>B and B>A, a transfer naming one recipient twice and the sender itself, a transfer with zero-amount outputs around the funded ones, conversions submitted in graded and ungraded blocks, a two-entry block, byte-identical copies of the previous entry, a PEG request, a chained batch in both orders, conversions into pFCT and into a small asset, a conversion whose output the same batch spends, a block with too few price records, an FCT burn with a pFCT conversion, a transfer whose outputs equal its input only modulo 2^64) up to the stated depth from a funded state in several eras; after EVERY block the balances of the three actors and the miner and the status of every submitted entry are compared with a reference ledger kept in maps; this property reports the discrepancies of its class"
 
 // files of a package are initialised in file-name order, so the drivers are registered by now
 func init() {
